@@ -337,6 +337,14 @@ built over the very lock held, which releases it (table regenerated from the AST
 theorem no_caller_waits_with_a_teardown_lock_held :
     ∀ s ∈ PV.Generated.C13.blockingUnderLock, s.safe = true := by decide
 
+/-- both shutdown paths close the channels they find in the transport's channel map (`unlink_channels`), so the rows
+above need every open channel to be in it: the only removals are a channel unlinking itself as it closes and the
+refusal of an open that is still pending (table regenerated from the AST) -/
+theorem open_channels_stay_in_the_map :
+    ∀ s ∈ PV.Generated.C13.channelMapDeletes, s.safe = true := by decide
+
+theorem channel_map_has_its_two_removals : PV.Generated.C13.channelMapDeletes.length ≥ 2 := by decide
+
 theorem lock_table_covers_the_send_gate :
     (PV.Generated.C13.lockSites.filter fun s => s.lock == "self.clear_to_send_lock").length ≥ 4 := by decide
 
